@@ -272,6 +272,11 @@ func ParseSliceHeader(nalu []byte, spsMap map[uint32]*SPS, ppsMap map[uint32]*PP
 					sh.NumRefIdxL1ActiveMinus1 = uint8(r.ReadExpGolomb())
 				}
 			}
+			// values shall be in the range of 0 to 14, inclusive (also when inferred from the PPS)
+			if sh.NumRefIdxL0ActiveMinus1 > 14 || sh.NumRefIdxL1ActiveMinus1 > 14 {
+				return sh, fmt.Errorf("num_ref_idx_active_minus1 too large: %d, %d",
+					sh.NumRefIdxL0ActiveMinus1, sh.NumRefIdxL1ActiveMinus1)
+			}
 
 			if pps.ListsModificationPresentFlag {
 				if pps.SccExtension != nil && pps.SccExtension.CurrPicRefEnabledFlag {
